@@ -1,4 +1,6 @@
 import StrettoModel.Proofs.Policy
+import StrettoModel.Props.C17
+import StrettoModel.Proofs.Agree
 /-!
 # C01 — Charged cost of resident entries never exceeds max_cost
 
@@ -232,6 +234,54 @@ example : (run { l := { costs := [], used := 0, maxCost := 10, samples := 5 }, s
     [.add 1 4 (fun _ => 0) [], .add 2 4 (fun _ => 0) [], .update 1 9, .updateMaxCost 8]).slack = 7 := by
   decide
 
+-- at the level of the whole cache ---------------------------------------------------------------------
+
+/-- **the charged total is the sum of the per-entry charges, and no key is charged twice, in every state
+the cache can reach** — any interleaving of any client calls with the processor, the ticker, clears,
+the policy worker, `update_max_cost` (from C17's conservation invariant, which carries `Lfu.Inv`) -/
+theorem cache_used_is_sum (su : Nat → Nat → Bool) (cfg : Cfg) (maxCost : Int) (samples : Nat) (acts : List Act) :
+    let c := Cache.run su (Cache.init cfg maxCost samples) acts
+    c.lfu.costs.WF ∧ c.lfu.used = KMap.total c.lfu.costs :=
+  (C17.exec_minv su _ acts (C17.init_minv cfg maxCost samples)).lfuInv
+
+/-- **every admission of a new key by the processor re-establishes `used ≤ max_cost`**, in every
+reachable state, whatever slack in-place updates or a lowered `max_cost` had left before: if the step is
+the processor applying a `New` item for a key that was not charged and is charged afterwards, the charged
+total fits. An item whose own charge exceeds `max_cost` is never admitted and changes no charge. -/
+theorem cache_admission_reestablishes (su : Nat → Nat → Bool) (c c' : Cache) (est : Nat → Int)
+    (refills : List (List (Nat × Int))) (hs : c.step su (.procItem est refills) = some c')
+    (hinv : c.lfu.Inv) (k cf : Nat) (cost : Int) (v : Nat) (exp : Time) (rest : List Item)
+    (hb : c.buf = Item.new k cf cost v exp :: rest) :
+    (c.lfu.costs.get k = none → (c'.lfu.costs.get k).isSome = true → c'.lfu.used ≤ c'.lfu.maxCost) ∧
+    (c.internalCost cost > c.lfu.maxCost → c'.lfu = c.lfu) := by
+  simp only [Cache.step, Cache.procItem] at hs
+  split at hs
+  · cases hs
+  · rw [hb] at hs
+    simp only [Option.some.injEq] at hs; subst hs
+    have hap := admitPending_frame ({ c with buf := rest } : Cache)
+    generalize ({ c with buf := rest } : Cache).admitPending = c1 at hap
+    have hl : c1.lfu = c.lfu := hap.2.1
+    have hic : c1.internalCost cost = c.internalCost cost := by
+      unfold Cache.internalCost; rw [hap.2.2.2]
+    have hlfu : (c1.handleItem su est refills (Item.new k cf cost v exp)).lfu =
+        (policyAdd c1.lfu est k (c1.internalCost cost) refills).lfu := by
+      simp only [Cache.handleItem]
+      split
+      · rw [(evictVictims_spec _ _).1]; split <;> (try split) <;> simp
+      · split <;> (try split) <;> simp
+    rw [hlfu, hl, hic]
+    have sp := policyAdd_spec c.lfu est k (c.internalCost cost) refills hinv
+    constructor
+    · intro hnone hsome
+      cases hadd : (policyAdd c.lfu est k (c.internalCost cost) refills).added with
+      | true => exact (sp.admitted hadd).1
+      | false =>
+        have := sp.refused hadd hnone
+        rw [this] at hsome; cases hsome
+    · intro hbig
+      exact (sp.oversize hbig).2.1
+
 end Stretto.C01
 
 #print axioms Stretto.C01.bounded_with_slack
@@ -240,3 +290,5 @@ end Stretto.C01
 #print axioms Stretto.C01.admit_reestablishes
 #print axioms Stretto.C01.oversize_never_admitted
 #print axioms Stretto.C01.max_cost_takes_effect
+#print axioms Stretto.C01.cache_used_is_sum
+#print axioms Stretto.C01.cache_admission_reestablishes
